@@ -272,18 +272,26 @@ class RandInfoBuilder(ModelVisitor,RandIF):
 
     def visit_constraint_if_else(self, c : ConstraintIfElseModel):
         self.visit_constraint_stmt_enter(c)
-        self._soft_cond_l.append(c.cond)
+        self._soft_cond_l.append(RandInfoBuilder._soft_guard(c.cond, True))
         c.cond.accept(self)
         c.true_c.accept(self)
         if c.false_c != None:
-            self._soft_cond_l[-1] = ExprUnaryModel(UnaryExprType.Not, c.cond)
+            self._soft_cond_l[-1] = RandInfoBuilder._soft_guard(c.cond, False)
             c.false_c.accept(self)
         self._soft_cond_l.pop()
         self.visit_constraint_stmt_leave(c)
 
+    @staticmethod
+    def _soft_guard(cond, holds):
+        """Boolean form of a condition: any non-zero value means true"""
+        return ExprBinModel(
+            cond,
+            BinExprType.Ne if holds else BinExprType.Eq,
+            ExprLiteralModel(0, False, 1))
+
     def visit_constraint_implies(self, c : ConstraintImpliesModel):
         self.visit_constraint_stmt_enter(c)
-        self._soft_cond_l.append(c.cond)
+        self._soft_cond_l.append(RandInfoBuilder._soft_guard(c.cond, True))
         c.cond.accept(self)
         self.visit_constraint_scope(c)
         self._soft_cond_l.pop()
